@@ -100,6 +100,7 @@ func (u *Universe) sessionV1(s Spec) *protosession.SessionToken {
 	owner, req := u.Users[IDOwner], u.Users[s.Requester]
 	var t session.Object
 	h := sha256.Sum256([]byte(s.Fingerprint()))
+	h[6], h[8] = h[6]&0x0f|0x40, h[8]&0x3f|0x80 // UUID v4
 	t.SetID(uuid.UUID(h[:16]))
 	t.SetAuthKey((*neofsecdsa.PublicKey)(&req.Priv.PublicKey))
 	t.SetIat(Epoch - 1)
